@@ -21,6 +21,9 @@ pub async fn propose(
         let program = &cursor.doc.ast;
         let tokens = &cursor.doc.tokens;
         let position = correct_index(cursor.index);
+        if in_comment(position, tokens, &cursor.doc.text) {
+            return Ok(None);
+        }
 
         if let Some(gd) = program
             .global_declarations
@@ -157,7 +160,7 @@ fn complete_statements(
             (stmt, tokens)
         })
         .find(|(stmt, tokens)| {
-            if stmt.to_text_range(tokens).contains(&position) {
+            if text_range_without_comments(stmt, tokens).contains(&position) {
                 true
             } else {
                 last_stmt_is_if = matches!(stmt.as_ref(), Statement::If(_));
@@ -183,7 +186,7 @@ macro_rules! complete_branch {
     ($branch:expr, $position:expr, $tokens:expr, $last_token:expr, $lookup_table:expr) => {
         if let Some(stmt) = $branch {
             let tokens = stmt.info().slice(&$tokens[stmt.offset..]);
-            if stmt.to_text_range(tokens).contains(&$position) {
+            if text_range_without_comments(stmt, tokens).contains(&$position) {
                 return complete_statement(
                     stmt,
                     $position,
@@ -211,9 +214,40 @@ fn at_branch_start(
                 .get(stmt.offset - 1)
                 .map_or(false, |token| position >= token.range.end)
             && tokens
-                .get(stmt.offset)
+                .get(stmt.offset..)
+                .and_then(|tokens| tokens.iter().find(|token| !is_comment(token)))
                 .map_or(true, |token| position < token.range.start)
     })
+}
+
+fn is_comment(token: &Token) -> bool {
+    matches!(token.token_type, TokenType::Comment(_))
+}
+
+/// True if the position is inside of the text of a comment.
+/// (The line break at the end of a comment belongs to its token,
+/// but a cursor behind it is in front of whatever follows the comment.)
+fn in_comment(position: usize, tokens: &[Token], text: &str) -> bool {
+    tokens
+        .iter()
+        .find(|token| token.range.contains(&position))
+        .map_or(false, |token| {
+            is_comment(token) && text.as_bytes().get(position) != Some(&b'\n')
+        })
+}
+
+/// The text range of a statement starts with the comments in front of it.
+/// A cursor between those comments and the statement itself is not inside of the statement.
+fn text_range_without_comments(
+    stmt: &Reference<Statement>,
+    tokens: &[Token],
+) -> std::ops::Range<usize> {
+    let range = stmt.to_text_range(tokens);
+    let start = tokens
+        .iter()
+        .find(|token| !is_comment(token))
+        .map_or(range.end, |token| token.range.start);
+    start.max(range.start)..range.end.max(start)
 }
 
 fn complete_statement(
